@@ -207,23 +207,61 @@ def r7_1(ctx: Ctx) -> RuleResult:
     else:
         rr.bad(pg, pg.node, "a parenthesised expression must be returned as the inner node so that the caller's "
                "checks apply to it", construct="grouped expression transparent")
-    # LOGICAL parameter: allow-list
+    # LOGICAL parameter: partial evaluation of the per-argument check with the parameter type LOGICAL and
+    # the argument an instance of each node class that is a literal or a value-typed function call
+    import copy as _copy
+
+    from sa.loader import FuncInfo as _FI
+    from sa.peval import Explorer
+
     cw = ctx.repo.require_func("JSONPathEnvironment.check_well_typedness")
-    ok = False
-    for r in [n for n in ast.walk(cw.node) if isinstance(n, ast.Raise)]:
-        conds = path_conditions(cw.node, r)
-        if not any("LOGICAL" in ast.unparse(t) and b for t, b in conds):
-            continue
-        for t, b in conds:
+    loops = [n for n in cw.node.body if isinstance(n, ast.For)]
+    if len(loops) != 1:
+        raise AnalysisError("R7.1: check_well_typedness is no longer one loop over the parameters")
+    shell = _copy.copy(cw.node)
+    shell.body = loops[0].body
+    per_arg = _FI(qualname=cw.qualname, name=cw.name, node=shell, module=cw.module, cls=cw.cls)
+    et = ctx.repo.require_class("ExpressionType")
+    must_refuse = ["BooleanLiteral", "StringLiteral", "IntegerLiteral", "FloatLiteral", "RegexLiteral", "Nil", "Undefined",
+                   "ListLiteral", "FunctionExtension", "CurrentKey"]
+    accepted: List[str] = []
+    decided = 0
+    for k in must_refuse:
+        kcls = ctx.repo.require_class(f"jsonpath.filter.{k}")
+
+        def oracle(t: ast.expr, env: dict, kcls=kcls) -> Optional[bool]:  # type: ignore[no-untyped-def,type-arg]
             icl = isinstance_classes(t)
-            if icl is not None and not b:
-                names = set(icl[1])
-                if not (names & {"Literal", "Nil", "FunctionExtension", "ListLiteral", "Undefined", "CurrentKey"}):
-                    ok = True
-    if ok:
-        rr.ok(cw.loc(), "a LOGICAL parameter accepts only an allow-list of node classes without literals/functions")
+            if icl is not None and not icl[0].startswith("self"):
+                try:
+                    classes = ctx.folder.eval_in(t.args[1], cw.module, cw.cls)  # type: ignore[attr-defined]
+                except NotConst:
+                    return None
+                classes = classes if isinstance(classes, tuple) else (classes,)
+                names = [getattr(getattr(c, "cls", None), "qualname", None) for c in classes]
+                if any(n is None for n in names):
+                    return None
+                return any(ctx.repo.is_subclass(kcls.qualname, n) for n in names)
+            if isinstance(t, ast.Compare) and len(t.ops) == 1 and isinstance(t.ops[0], (ast.Eq, ast.NotEq)):
+                for side, other in ((t.comparators[0], t.left), (t.left, t.comparators[0])):
+                    try:
+                        m = ctx.folder.eval_in(side, cw.module, cw.cls)
+                    except NotConst:
+                        continue
+                    if isinstance(m, EnumMember) and m.cls is et:
+                        if isinstance(other, ast.Call) and callee_name(other) == "_function_return_type":
+                            return (m.name == "VALUE") == isinstance(t.ops[0], ast.Eq)
+                        return (m.name == "LOGICAL") == isinstance(t.ops[0], ast.Eq)
+            return None
+
+        ex = Explorer(ctx.folder, per_arg, oracle)
+        outs = ex.run({})
+        decided += 1
+        if any(kind != "raise" for kind, _n, _v in outs) or not outs:
+            accepted.append(k)
+    if not accepted:
+        rr.ok(cw.loc(), f"a LOGICAL parameter refuses all of {must_refuse} (partial evaluation, {decided} node classes)")
     else:
-        rr.bad(cw, cw.node, "the LOGICAL parameter check must refuse literals and value-typed function results",
+        rr.bad(cw, cw.node, f"the LOGICAL parameter check must refuse literals and value-typed function results; it accepts {accepted}",
                construct="LOGICAL parameter allow-list")
     return rr
 
